@@ -51,8 +51,7 @@ def Frame.colType (f : Frame V) (c : Nat) : DType := ((f.cols[c]?).map (·.dtype
 
 /-- `H5Tget_member_index` -/
 def Frame.colIndex (f : Frame V) (name : String) : Option Nat :=
-  let i := f.cols.findIdx (fun c => c.name == name)
-  if i < f.cols.length then some i else none
+  if f.cols.findIdx (fun c => c.name == name) < f.cols.length then some (f.cols.findIdx (fun c => c.name == name)) else none
 
 /-- `DataType::member_name(index)`: an index past the last member makes `std::string(nullptr)` (std::logic_error) -/
 def Frame.colName (f : Frame V) (i : Nat) : Except Err String :=
@@ -79,12 +78,22 @@ def Frame.create (cols : List Col) : Except Err (Frame V) :=
 def Frame.setRows (f : Frame V) (n : Nat) : Frame V :=
   { f with nrows := n, get := fun r c => if r < n ∧ r < f.nrows then f.get r c else zero (f.colType c) }
 
+/-- the member name a Cell designates: `c.haveName() ? c.name : dst.member_name(c.col)`; a Cell made from an
+    empty name has col = 0 -/
+def Frame.cellName (f : Frame V) : Ref → Except Err String
+  | .name n => if n.isEmpty then f.colName 0 else .ok n
+  | .idx i => f.colName i
+
+/-- the column name a `readCell` / `writeColumn` / `readColumn` overload works with: the given name, or `colName(col)` -/
+def Frame.refName (f : Frame V) : Ref → Except Err String
+  | .name n => .ok n
+  | .idx i => f.colName i
+
 /-- the `Janus(dst, cells)` loop: resolve each cell's member name, refuse unknown and repeated members -/
 def Frame.resolve (f : Frame V) : List String → List (Ref × Variant V) → Except Err (List (Nat × Variant V))
   | _, [] => .ok []
   | seen, (ref, v) :: rest =>
-    -- `c.haveName() ? c.name : dst.member_name(c.col)`; a Cell made from an empty name has col = 0
-    match (match ref with | .name n => if n.isEmpty then f.colName 0 else Except.ok n | .idx i => f.colName i) with
+    match f.cellName ref with
     | .error e => .error e
     | .ok name =>
       match f.colIndex name with
@@ -95,6 +104,26 @@ def Frame.resolve (f : Frame V) : List String → List (Ref × Variant V) → Ex
         | .error e => .error e
         | .ok l => .ok ((c, v) :: l)
 
+/-- the table after the cells `rc` (column index, value) of row `row` have been transferred -/
+def Frame.setCells (f : Frame V) (row : Nat) (rc : List (Nat × Variant V)) : Frame V :=
+  { f with get := fun r c =>
+      if r = row then (match rc.lookup c with
+        | some v => convert conv v.ty (f.colType c) v.val
+        | none => f.get r c)
+      else f.get r c }
+
+/-- the table after `cnt` elements of `vals` (of memory type `ty`) have been transferred to column `col` from row `offset` on -/
+def Frame.setColumn (f : Frame V) (col : Nat) (ty : DType) (offset cnt : Nat) (vals : List V) : Frame V :=
+  { f with get := fun r k =>
+      if k = col ∧ offset ≤ r ∧ r < offset + cnt then
+        (match vals[r - offset]? with
+          | some v => convert conv ty (f.colType col) v
+          | none => f.get r k)
+      else f.get r k }
+
+/-- `count == 0` means "all of `vals`" -/
+def effCount (count n : Nat) : Nat := if count = 0 then n else count
+
 /-- `DataFrameHDF5::writeCells(row, cells)` -/
 def Frame.writeCells (f : Frame V) (row : Nat) (cells : List (Ref × Variant V)) : Except Err (Frame V) :=
   if cells.any (fun c => !c.2.ty.isValueType) then .error .stdInvalidArgument else   -- data_type_to_h5_memtype(c.type())
@@ -104,11 +133,7 @@ def Frame.writeCells (f : Frame V) (row : Nat) (cells : List (Ref × Variant V))
   | .ok rc =>
     if row ≥ f.nrows then .error .h5Error else                                        -- hyperslab outside the extent
     if rc.any (fun cv => !convertible cv.2.ty (f.colType cv.1)) then .error .h5Error else   -- member conversion
-    let g : Nat → Nat → V := fun r c =>
-      if r = row then (match rc.lookup c with
-        | some v => convert conv v.ty (f.colType c) v.val
-        | none => f.get r c) else f.get r c
-    .ok { f with get := g }
+    .ok (f.setCells conv row rc)
 
 /-- `DataFrameHDF5::writeRow(row, vals)`: the k-th value goes to the k-th column -/
 def Frame.writeRow (f : Frame V) (row : Nat) (vals : List (Variant V)) : Except Err (Frame V) :=
@@ -130,7 +155,7 @@ def Frame.readRow (f : Frame V) (row : Nat) : Except Err (List (Variant V)) :=
 
 /-- `DataFrame::readCell(row, col)` / `readCell(row, name)` -/
 def Frame.readCell (f : Frame V) (row : Nat) (ref : Ref) : Except Err (String × Variant V) :=
-  match (match ref with | .name n => Except.ok n | .idx i => f.colName i) with
+  match f.refName ref with
   | .error e => .error e
   | .ok name =>
     match f.readCells row [name] with
@@ -140,22 +165,17 @@ def Frame.readCell (f : Frame V) (row : Nat) (ref : Ref) : Except Err (String ×
 
 /-- `DataFrame::writeColumn<T>(name | col, vals, offset, count)` -/
 def Frame.writeColumn (f : Frame V) (ref : Ref) (ty : DType) (vals : List V) (offset count : Nat) : Except Err (Frame V) :=
-  match (match ref with | .name n => Except.ok n | .idx i => f.colName i) with
+  match f.refName ref with
   | .error e => .error e
   | .ok name =>
     if count > vals.length then .error .outOfBounds else
-    let count := if count = 0 then vals.length else count
     match f.colIndex name with
     | none => .error .h5Error                                     -- no such member in the frame
     | some c =>
-      if count = 0 then .ok f else                                -- nothing selected
-      if offset + count > f.nrows then .error .h5Error else
+      if effCount count vals.length = 0 then .ok f else           -- nothing selected
+      if offset + effCount count vals.length > f.nrows then .error .h5Error else
       if !convertible ty (f.colType c) then .error .h5Error else
-      let g : Nat → Nat → V := fun r k =>
-        if k = c ∧ offset ≤ r ∧ r < offset + count then
-          (match vals[r - offset]? with | some v => convert conv ty (f.colType c) v | none => f.get r k)
-        else f.get r k
-      .ok { f with get := g }
+      .ok (f.setColumn conv c ty offset (effCount count vals.length) vals)
 
 /-- `DataFrameHDF5::readColumn` into a buffer that holds `buf` before the call: the first `count` elements are
     replaced, the rest stays -/
@@ -171,7 +191,7 @@ def Frame.readColumnRaw (f : Frame V) (name : String) (ty : DType) (buf : List V
 /-- `DataFrame::readColumn<T>(name | col, vals, count, resize, offset)` -/
 def Frame.readColumnN (f : Frame V) (ref : Ref) (ty : DType) (buf : List V) (count : Nat) (resize : Bool) (offset : Nat) :
     Except Err (List V) :=
-  match (match ref with | .name n => Except.ok n | .idx i => f.colName i) with
+  match f.refName ref with
   | .error e => .error e
   | .ok name =>
     if resize then
@@ -181,7 +201,7 @@ def Frame.readColumnN (f : Frame V) (ref : Ref) (ty : DType) (buf : List V) (cou
 
 /-- `DataFrame::readColumn<T>(name | col, vals, resize, offset)` -/
 def Frame.readColumn (f : Frame V) (ref : Ref) (ty : DType) (buf : List V) (resize : Bool) (offset : Nat) : Except Err (List V) :=
-  match (match ref with | .name n => Except.ok n | .idx i => f.colName i) with
+  match f.refName ref with
   | .error e => .error e
   | .ok name =>
     if resize then
@@ -224,7 +244,7 @@ def FSt.mutate (s : FSt V) (f : Frame V → Except Err (Frame V)) : FSt V × Opt
 def step (s : FSt V) : Op V → FSt V × Option Err
   | .create cols =>
     match Frame.create zero cols with
-    | .error e => ({ s with frame := none }, some e)
+    | .error e => ({ frame := none, writable := true }, some e)        -- the new (writable) file stays, without a frame
     | .ok fr => ({ frame := some fr, writable := true }, none)
   | .setRows n => s.mutate fun fr => .ok (fr.setRows zero n)
   | .writeRow row vals => s.mutate fun fr => fr.writeRow conv row vals
